@@ -727,7 +727,7 @@ fn imeta_roundtrip(prop: &str, i: u64, rng: &mut Rng, out: &mut Outcome, dir: &s
 
 pub fn run(ctx: &Ctx) -> i32 {
     let dir = ctx.scratch_dir("c15");
-    let n = ctx.budget(1200, 40_000) as u64;
+    let n = ctx.budget(8000, 120_000) as u64;
     let out = crate::par::run(ctx, n, std::time::Duration::from_secs(ctx.tier.pick(80, 1200)), |i, rng, out| match i % 4 {
         0 => extension_roundtrip(&ctx.prop, i, rng, out, &dir),
         1 => extension_mutations(&ctx.prop, i, rng, out, &dir),
